@@ -172,8 +172,27 @@ def canonical_modulo_gradient_ids(text):
             for k in list(d):
                 d.remove(k)
             for k in kids:
-                for a, val in list(k.attrib.items()):
-                    if a != "id" and re.search(_NUM, val):
-                        k.set(a, re.sub(_NUM, lambda m: str(round(float(m.group(0)), 4)), val))
                 d.append(k)
     return etree.tostring(root, method="c14n", exclusive=True).decode()
+
+
+def equivalent_modulo_gradients(a, b, tol=3e-6):
+    """O4: equal up to gradient id numbering, order inside defs and the last rounded digit of gradient parameters"""
+    ca, cb = canonical_modulo_gradient_ids(a), canonical_modulo_gradient_ids(b)
+    if ca == cb:
+        return True
+
+    def split(c):
+        root = etree.fromstring(c.encode())
+        nums = []
+        for g in root.iter():
+            if _local(g) in ("linearGradient", "radialGradient"):
+                for k, val in sorted(g.attrib.items()):
+                    if k != "id":
+                        found = re.findall(_NUM, val)
+                        nums.extend(float(x) for x in found)
+                        g.set(k, re.sub(_NUM, "#", val))
+        return etree.tostring(root, method="c14n", exclusive=True).decode(), nums
+
+    (sa, na), (sb, nb) = split(ca), split(cb)
+    return sa == sb and len(na) == len(nb) and all(abs(x - y) <= tol * max(1.0, abs(x)) for x, y in zip(na, nb))
